@@ -81,6 +81,16 @@ Section Alg.
 
   (* concatenating ANY two aligned sets - also sets that carry different optional fields - gives an aligned set: a field is kept
      only when both have it, and then it has one entry per row *)
+  (* the pieces of one set carry the same temperature / evidence, so their union carries them too *)
+  Lemma concat2c_getitem_scalars (veqb : V -> V -> bool) idx1 idx2 s :
+    (forall v, veqb v v = true) ->
+    let r := concat2c X V veqb (getitem (IList idx1) s) (getitem (IList idx2) s) in
+    a_beta _ _ r = a_beta _ _ s /\ a_le _ _ r = a_le _ _ s /\ a_lee _ _ r = a_lee _ _ s.
+  Proof.
+    intros Hrefl. cbn [concat2c getitem a_beta a_le a_lee]. unfold ocarry.
+    repeat split; match goal with |- context [match ?o with _ => _ end] => destruct o as [v|]; [rewrite Hrefl|]; reflexivity end.
+  Qed.
+
   Lemma concat2_wf a b : wf a -> wf b -> wf (concat2 X V a b).
   Proof.
     unfold SamplesAlg.wf. intros (A1 & A2 & A3 & A4 & A5) (B1 & B2 & B3 & B4 & B5). cbn [concat2 a_x a_ll a_lp a_lq a_lw a_w].
